@@ -10,7 +10,7 @@ MCHashSeeds == {0, 1, 4711}
 G(kind, path, isdir) == [kind |-> kind, path |-> path, isdir |-> isdir]
 MCGenInputs == {G("file", "IN/solo.cmake", FALSE), G("flatdir", "IN/flat", TRUE), G("nesteddir", "IN/treeA", TRUE),
                 G("missing", "IN/nothing", FALSE), G("syntaxerror", "IN/broken.cmake", FALSE),
-                G("linkeddir", "IN/linkA", TRUE), G("linkedfile", "IN/linksolo.cmake", FALSE), G("brokentop", "IN/brokentree", TRUE)}
+                G("linkeddir", "IN/linkA", TRUE), G("colondir", "IN/std:v2", TRUE), G("linkedfile", "IN/linksolo.cmake", FALSE), G("brokentop", "IN/brokentree", TRUE)}
 MCExtras == {<<>>, <<"-p", "PFX">>, <<"-e", "sub">>, <<"-s", "SFILE">>, <<"-p", "PFX", "-e", "y.cmake">>, <<"-e", "sub/", "-s", "SFILE", "-p", "P2">>,
              <<"-e", "sub", "-e", "y.cmake">>, <<"-p", "PFX", "-e", "PFX">>, <<"-e", "k", "-e", "k">>,
              \* arguments are forwarded verbatim: a blank or a backslash inside one argument stays inside it
